@@ -179,3 +179,23 @@ func (rm *RegistrationManager) VerifParse(w *pb.C2SWrapper) ([]*DecoyRegistratio
 	}
 	return rm.parseRegMessage(b)
 }
+
+// VerifNewIngestManager: a manager on which the whole ingest pipeline can run
+// (scripted liveness tester answering "not live", no-op detector announcements,
+// phantom and covert blocklists configured); transports are added by the caller.
+func VerifNewIngestManager() *RegistrationManager {
+	var ann []verifAnnouncement
+	rm := verifManager(&verifLiveness{}, &ann)
+	rm.LivenessTester = &verifQuietLiveness{}
+	rm.registeredDecoys.transports = map[pb.TransportType]Transport{}
+	rm.EnableIPv4, rm.EnableIPv6 = true, true
+	return rm
+}
+
+// VerifIngest runs one parsed registration through the ingest worker's steps.
+func (rm *RegistrationManager) VerifIngest(reg *DecoyRegistration) { rm.ingestRegistration(reg) }
+
+// a liveness tester that always answers "not live" (no choice points)
+type verifQuietLiveness struct{ verifLiveness }
+
+func (*verifQuietLiveness) PhantomIsLive(addr string, port uint16) (bool, error) { return false, nil }
